@@ -44,6 +44,7 @@ include hs
 
 @[pres] theorem battrParse_keep (attrs : Str) : Pres KeepIds (battrParse rec env attrs) := by
   have hr := fun t e => (replaceInline_frame rec env hs t e).keepIds
+  have hm := fun t sl => (macrosRender_frame rec env hs t sl).keepIds
   keep_start; unfold battrParse; wp_go
 
 theorem lineFilter_keep (d : LineDef) (mt : Match) : Pres KeepIds (lineFilter rec env d mt) := by
